@@ -30,19 +30,19 @@ P = {
  "C05": dict(cat="model_checking", ref="§4.6, §6 C05", tech="explicit-state model checking of the executor model against self-consistent rr / bw bound vectors",
    text="Per system the assumed-bound vector is obtained by iterating all singleton rr (resp. bw) analyses upward from the WCETs to a fixed point with the real code; the executor x reservation model is then explored to a fixpoint and every callback (timer, polled known / unknown priority) is checked against its bound.",
    note=MC_NOTE),
- "C06": dict(cat="exploration", ref="§6 C06", tech="bounded-exhaustive input enumeration against a naive all-offset linear-scan evaluator",
+ "C06": dict(cat="exploration", ref="§6 C06", tech="bounded-exhaustive input enumeration (small boxes over all arrival-model kinds, plus a box of four/five tasks with parameters in the tens and hundreds) against a naive all-offset linear-scan evaluator",
    text="Every input of the box (task sets up to 3 tasks, jittered/bursty/curve arrivals, deadlines, segment parameters, blocking bounds, priority levels, several limits around L and R) is evaluated by the real analysis and by an evaluator that scans L linearly and examines every offset A in [0,L) with linear-scan fixed points; results including every Err must be equal.",
    note=EX_NOTE),
- "C07": dict(cat="exploration", ref="§6 C07", tech="bounded-exhaustive input enumeration against naive evaluators with an SBF computed from the reservation automaton",
+ "C07": dict(cat="exploration", ref="§6 C07", tech="bounded-exhaustive input enumeration (small boxes plus a box of three/four callbacks with parameters in the tens and hundreds) against naive evaluators with an SBF computed from the reservation automaton",
    text="Each of the six ROS 2 analyses is compared on every input of the box with a literal evaluator of its defining inequalities (every offset up to the busy-window / max-offset bound, linear-scan fixed points, supply-bound function = min over all paths of the reservation automaton).",
    note=EX_NOTE),
  "C08": dict(cat="exploration", ref="§6 C08", tech="exhaustive enumeration of all monotone step workloads on a grid x supplies x offsets x limits",
    text="All non-decreasing workload functions on a small grid, all supplies (dedicated, periodic, constrained, and opaque wrappers exercising the default service_time), all in-busy-window offsets and all limits up to the fixed point + 2 are compared with a linear scan; max_response_time is checked on every result sequence up to length 4.",
    note=EX_NOTE),
- "C09": dict(cat="model_checking", ref="§4.5, §6 C09", tech="explicit-state reservation automaton: min service over all budget placements (DP over the state graph) vs the closed forms",
+ "C09": dict(cat="model_checking", ref="§4.5, §6 C09", tech="explicit-state reservation automaton: min service over all budget placements (DP over the state graph) vs the closed forms; far windows against the validated periodic extension of the model",
    text="For every (Q,D,P) in the box the reservation automaton is explored and sbf_model(delta) = min over all start states and paths is compared with provided_service; service_time is compared with the exact inverse for the specialised and the default implementation; the automaton itself is validated against a literal enumeration of placements.",
    note=MC_NOTE),
- "C10": dict(cat="model_checking", ref="§4.2, §6 C10", tech="explicit-state arrival automata: max events per window over all admissible sequences (DP over the state graph) vs number_arrivals",
+ "C10": dict(cat="model_checking", ref="§4.2, §6 C10", tech="explicit-state arrival automata: max events per window over all admissible sequences (DP over the state graph) vs number_arrivals; far windows against the validated periodic extension of the model",
    text="For every model in the box the automaton of its documented process is built, its reachable state graph enumerated and max_events(delta) computed over all paths; number_arrivals must dominate it (equal it for Periodic/Sporadic), be 0 at 0, monotone; jitter composition and superposition laws checked; automata validated against literal definitions on all short release vectors.",
    note=MC_NOTE),
  "C11": dict(cat="exploration", ref="§6 C11", tech="bounded-exhaustive enumeration of arrival/request bounds and compositions against brute-force step detection",
@@ -66,7 +66,7 @@ P = {
  "C17": dict(cat="exploration", ref="§6 C17", tech="bounded-exhaustive enumeration of (base system, single hardening) pairs",
    text="Every base system of the box x every single-parameter hardening (WCET+1, jitter+1, blocking+1, segment+1, period-1, one more interfering task/callback, weaker supply, larger limit) for the nine dedicated analyses and the six ROS 2 analyses: Ok(a)->Ok(b>=a)|Err, Err->Err, larger limit keeps Ok.",
    note=EX_NOTE),
- "C18": dict(cat="model_checking", ref="§6 C18", tech="explicit-state model checking: exact worst-case response time of the scheduler model (fixpoint) == returned bound",
+ "C18": dict(cat="model_checking", ref="§6 C18", tech="explicit-state model checking: exact worst-case response time of the scheduler model (fixpoint) == returned bound; far-window tightness of auto-extrapolating curves against the Dmin automaton",
    text="By-product of the C01/C03 searches with strictly periodic automata: when a system's search is complete (no cap hit) the maximum response time over all completion transitions of the model must equal the bound returned by fully preemptive FP, non-preemptive FP and FIFO; a witness trace is extracted and re-validated for sampled systems.",
    note=MC_NOTE),
  "C19": dict(cat="exploration", ref="§6 C19", tech="bounded-exhaustive enumeration of inputs in the common special cases of analysis pairs",
